@@ -14,6 +14,8 @@ Verdict(c) ==
   ELSE IF exp = "ok" /\ c.q.cmd = "view" /\ c.count # ViewCount(c.q.r, c.n) THEN "view_record_count_wrong"
   ELSE IF exp = "ok" /\ c.q.cmd = "sort" /\ c.count # c.n.all THEN "sort_record_count_wrong"
   ELSE IF exp = "ok" /\ c.q.cmd = "find_path" /\ c.count # PathLines(c.q.r) THEN "find_path_line_count_wrong"
+  ELSE IF exp = "ok" /\ c.q.cmd = "phase" /\ c.count # PhaseCount(c.q.r, c.n) THEN "phase_record_count_wrong"
+  ELSE IF exp = "ok" /\ c.q.cmd = "realign" /\ c.count # RealignCount(c.q.r, c.n) THEN "realign_record_count_wrong"
   ELSE "ok"
 CInit == ci = 1 /\ req \in {CHOOSE x \in Reqs : TRUE}
 CNext == /\ ci <= Len(Cases)
